@@ -331,7 +331,8 @@ func c06R3(p *core.Program, r *core.Report) {
 		if !isRet || len(ret.Results) != 2 {
 			return true
 		}
-		mc := core.AsCall(info, ret.Results[0], core.G("pkg/gengo.merge"))
+		res0, _ := core.Resolve(info, d.Body, ret.Results[0]) // `merged := merge(...); return merged, doc`
+		mc := core.AsCall(info, res0, core.G("pkg/gengo.merge"))
 		if mc == nil || len(mc.Args) != 3 {
 			return true
 		}
@@ -453,13 +454,31 @@ func c06R3(p *core.Program, r *core.Report) {
 	// pkgTags of the per-generator context is the per-package map
 	shared := false
 	ast.Inspect(pe.Body, func(n ast.Node) bool {
-		kv, isKV := n.(*ast.KeyValueExpr)
-		if !isKV {
-			return true
-		}
-		if id, isID := kv.Key.(*ast.Ident); isID && id.Name == "pkgTags" {
-			if f := core.FieldOf(pinfo, kv.Value); isRole(p, f, "ctx.pkgTags") {
-				shared = true
+		if cl, isLit := n.(*ast.CompositeLit); isLit && core.NamedTypeName(pinfo.TypeOf(cl)) == ctxG(p) {
+			// field by field, or as part of an embedded group that is copied from the per-package context as a whole
+			if inits, copies, okI := structInitsEx(pinfo, pe.Body, cl); okI {
+				for fld, v := range inits {
+					if isRole(p, fld, "ctx.pkgTags") && isRole(p, core.FieldOf(pinfo, v), "ctx.pkgTags") {
+						shared = true
+					}
+				}
+				for fld, from := range copies {
+					if isRole(p, fld, "ctx.pkgTags") {
+						if t := pinfo.TypeOf(from); t != nil {
+							root := ast.Unparen(from)
+							for {
+								sel, isSel := root.(*ast.SelectorExpr)
+								if !isSel {
+									break
+								}
+								root = ast.Unparen(sel.X)
+							}
+							if rv := core.VarOf(pinfo, root); rv != nil && core.NamedTypeName(rv.Type()) == ctxG(p) {
+								shared = true
+							}
+						}
+					}
+				}
 			}
 		}
 		return true
